@@ -1,19 +1,30 @@
 #!/bin/sh
-# usage: tools/tryseed.sh <patch.diff> <ID> [tier]  -> applies the patch to /repo, runs the check, restores /repo
-# prints the last lines of the check output and its exit code
+# usage: tools/tryseed.sh <patch.diff> <ID> [tier]  -> applies the patch to the tree, runs the check, restores the tree
+# prints the last lines of the check output and its exit code.
+# The tree is /repo unless TRY_SCRATCH=<name> is set: then the experiment runs on a scratch copy made by tools/scratch.sh <name>
+# (own harness copy, build directory and evidence directory), and /repo and /verif/evidence are left alone.
 set -u
 patch=$1; id=$2; tier=${3:-quick}
-cd /repo || exit 9
+repo=/repo
+if [ -n "${TRY_SCRATCH:-}" ]; then
+  d=/tmp/verif-scratch-$TRY_SCRATCH
+  [ -d "$d/repo/.git" ] || { echo "no scratch copy $d (tools/scratch.sh $TRY_SCRATCH; it must be a git checkout)"; exit 9; }
+  repo=$d/repo
+  export WOWM_REPO=$d/repo VERIF_HARNESS=$d/harness VERIF_BUILD=$d/build VERIF_EVIDENCE=$d/evidence
+  mkdir -p "$d/evidence"
+fi
+cd "$repo" || exit 9
 if ! git diff --quiet; then echo "repo dirty"; exit 9; fi
 git apply "$patch" || { echo "patch does not apply"; exit 9; }
 cd /verif
-cp evidence/$id.json /tmp/tryseed.$$.ev 2>/dev/null
+ev=${VERIF_EVIDENCE:-/verif/evidence}
+cp "$ev/$id.json" /tmp/tryseed.$$.ev 2>/dev/null
 python3 check.py "$id" --tier "$tier" > /tmp/tryseed.$$.log 2>&1
 rc=$?
 grep -v "^\[build\]\|^\[driver\]\|^KNOWN-FINDING" /tmp/tryseed.$$.log | cut -c1-260 | tail -6
 echo "EXIT $rc"
 # the evidence of a seeded run is not evidence about the unchanged tree: put the previous file back
-[ -f /tmp/tryseed.$$.ev ] && mv /tmp/tryseed.$$.ev evidence/$id.json
-rm -rf evidence/replays/$id/*.json 2>/dev/null
-cd /repo && git checkout -- . && git clean -fdq -- wow_world_messages/tests wow_login_messages/tests wow_world_base/tests 2>/dev/null
+[ -f /tmp/tryseed.$$.ev ] && mv /tmp/tryseed.$$.ev "$ev/$id.json"
+rm -rf "$ev/replays/$id"/*.json 2>/dev/null
+cd "$repo" && git checkout -- . && git clean -fdq -- wow_world_messages/tests wow_login_messages/tests wow_world_base/tests 2>/dev/null
 rm -f /tmp/tryseed.$$.log
